@@ -539,11 +539,11 @@ class IRWithUses(ABC):
         return None
 
 
-_VALUE_NAME_PATTERN = re.compile(r"([A-Za-z_$.-][\w$.-]*)")
+_VALUE_NAME_PATTERN = re.compile(r"([A-Za-z_$.-][\w$.-]*)", re.ASCII)
 """Pattern to check if a name is valid for an SSAValue or Block."""
 
-_VALUE_NAME_SUFFIX_PATTERN = re.compile(r"(_\d+)$")
-"""This pattern is used to remove the suffix from an SSAValue or Block name."""
+_VALUE_NAME_SUFFIX_PATTERN = re.compile(r"(_\d+)+$", re.ASCII)
+"""This pattern is used to remove the suffixes from an SSAValue or Block name."""
 
 
 @dataclass(eq=False)
@@ -567,7 +567,7 @@ class IRWithName(ABC):
 
     @overload
     @classmethod
-    def extract_valid_name(cls, name: str) -> str: ...
+    def extract_valid_name(cls, name: str) -> str | None: ...
 
     @overload
     @classmethod
@@ -576,7 +576,8 @@ class IRWithName(ABC):
     @classmethod
     def extract_valid_name(cls, name: str | None) -> str | None:
         """
-        If the name is valid, extracts the name before an optional `_\\d+` suffix.
+        If the name is valid, extracts the name before any `_\\d+` suffixes (`None`
+        if nothing precedes them).
         Raises ValueError otherwise.
         """
         if name is None:
@@ -588,8 +589,9 @@ class IRWithName(ABC):
             )
 
         if match := _VALUE_NAME_SUFFIX_PATTERN.search(name):
-            # Remove `_` followed by numbers at the end of the name
-            return name[: match.start()]
+            # Remove all `_` followed by numbers at the end of the name, these are
+            # reserved for the suffixes that make printed names unique
+            return name[: match.start()] or None
 
         return name
 
